@@ -81,7 +81,7 @@ SHAPES = {
 SHAPE_TEXT = '; pool of 3 commands in 1-2 groups, <= 2 variables each (all types/access modes, data_size 1..4), names <= 2 bytes over all byte values, every flag and handler subset, event queue capacity %d; all object scalars symbolic under Inv'
 
 
-def L1(kind, state, shape, ring=1, tiers=('quick', 'thorough'), timeout=900):
+def L1(kind, state, shape, ring=1, tiers=('quick', 'thorough'), timeout=900, props=None):
     sh = SHAPES[shape]
     if kind == 'at':
         defs = ['JOB_STATE=CAT_STATE_' + state]
@@ -91,7 +91,7 @@ def L1(kind, state, shape, ring=1, tiers=('quick', 'thorough'), timeout=900):
         defs = ['JOB_USTATE=CAT_UNSOLICITED_STATE_' + state]
         enforce, replace = 'unsolicited_events_service', list(LEAF_REPLACE)
         jid = 'L1u.%s.%s.N%d' % (state, shape, ring)
-    return {'id': jid, 'props': list(L1_PROPS), 'harness': 'l1_step.c', 'enforce': enforce, 'replace': replace, 'loop_contracts': False,
+    return {'id': jid, 'props': list(props or L1_PROPS), 'harness': 'l1_step.c', 'enforce': enforce, 'replace': replace, 'loop_contracts': False,
             'defines': defs + sh['defines'] + ['CAT_UNSOLICITED_CMD_BUFFER_SIZE=%d' % ring], 'expect': ['postcondition'], 'label': 'shape-bounded',
             'timeout': timeout, 'replay': None, 'cbmc_flags': ['--unwind', str(sh['unwind']), '--unwinding-assertions', '--object-bits', '10'], 'tiers': list(tiers),
             'shape': sh['text'] + SHAPE_TEXT % ring}
@@ -166,9 +166,10 @@ def jobs(tier):
         J.append(L1('un', st, 'sep8'))      # halves of different capacity (command 8, event 6)
     for st in ('READ_LOOP', 'TEST_LOOP', 'FORMAT_READ_ARGS', 'PARSE_COMMAND_ARGS'):
         J.append(L1('at', st, 'sep8'))
-    J.append(L1('at', 'PRINT_CMD', 'sh32'))
+    # larger capacities so that the TEST response / list lines actually fit: text-level clauses of C19 (and safety)
+    J.append(L1('at', 'PRINT_CMD', 'sh32', props=['C19', 'C03']))
     for st in ('FORMAT_TEST_ARGS', 'WAIT_TEST_ACKNOWLEDGE', 'AFTER_FLUSH_FORMAT_TEST_ARGS'):
-        J.append(L1('at', st, 'sep40'))
+        J.append(L1('at', st, 'sep40', props=['C19', 'C03']))
     for st in AT_STATES:
         if st not in ('READ_LOOP', 'TEST_LOOP', 'FORMAT_READ_ARGS', 'PARSE_COMMAND_ARGS'):
             J.append(L1('at', st, 'sep8', tiers=('thorough',)))
